@@ -240,6 +240,11 @@ def ev_sizes(case) -> R:
         recipe[f"bin/s{n}.png"] = {"hex": (bytes([0x89, 0x50, 0x4E, 0x47, 0, 1, 2, 3]) * (n // 8 + 1))[:n].hex()}
         recipe[f"bin/s{n}.png.license"] = "SPDX-FileCopyrightText: 2020 J\nSPDX-License-Identifier: MIT\n"
         recipe[f"txt/s{n}.txt"] = "# SPDX-FileCopyrightText: 2020 J\n# SPDX-License-Identifier: MIT\n" + "x" * max(0, n - 68)
+    # files that share base name and content (identical checksum) in different directories, and identical content under different names
+    same = "# SPDX-FileCopyrightText: 2020 J\n# SPDX-License-Identifier: MIT\n"
+    for d in ("pkg_a", "pkg_b", "pkg_a/sub"):
+        recipe[f"{d}/__init__.py"] = same
+    recipe["pkg_a/other_name.py"] = same
     materialise(root, recipe)
     lint = run_cli(["--root", str(root), "--no-multiprocessing", "lint", "--json"])
     out = run_cli(["--root", str(root), "--no-multiprocessing", "spdx"])
